@@ -90,8 +90,11 @@ func MatchMain(eng *Engine) (bind inputrc.Bind, command func(), prefix bool) {
 	}
 
 	// Non-incremental search mode should always insert the keys
-	// if they did not exactly match one of the valid commands.
-	if eng.nonIncSearch && (command == nil || prefix) {
+	// if they did not exactly match one of the valid commands:
+	// but the first bytes of a character wait for the rest of it.
+	partial := prefix && len(read) > 0 && read[0] >= utf8.RuneSelf && !utf8.FullRune(read)
+
+	if eng.nonIncSearch && (command == nil || prefix) && !partial {
 		bind = inputrc.Bind{Action: "self-insert"}
 		eng.active = bind
 		command = eng.resolve(bind)
